@@ -54,13 +54,20 @@ TResolve ==
   /\ ResolveAll
   /\ \A d \in Dids : last'.views[d] = Trace[l].views[d]
 
+TResolveHist ==
+  /\ IsEv("ResolveHist")
+  /\ ResolveHist
+  /\ \A d \in Dids : \A T \in 1..Len(ledger) :
+        /\ last'.times[d][T] = Trace[l].times[d][T]
+        /\ last'.versions[d][T] = Trace[l].versions[d][T]
+
 TReset ==
   /\ IsEv("Reset")
   /\ client' = [d \in Dids |-> [created |-> FALSE, uk |-> 4, rk |-> 1, seq |-> 0, dead |-> FALSE]]
   /\ queue' = <<>> /\ unpub' = {} /\ ledger' = <<>> /\ observed' = 0 /\ store' = {}
   /\ curver' = 0 /\ nsub' = 0 /\ faults' = 0 /\ hist' = <<>> /\ last' = [a |-> "init"] /\ deferredEver' = FALSE
 
-TNext == TSubmit \/ TFlush \/ TGarbage \/ TDup \/ TUpgrade \/ TObserve \/ TResolve \/ TReset
+TNext == TSubmit \/ TFlush \/ TGarbage \/ TDup \/ TUpgrade \/ TObserve \/ TResolve \/ TResolveHist \/ TReset
 TSpec == TInit /\ [][TNext]_tvars
 
 HW == TLCSet(1, IF l > TLCGet(1) THEN l ELSE TLCGet(1))
